@@ -236,6 +236,16 @@ def segsGo (p : Text) : Path.Segments → List Char → List String
       if c == 'c' then [s!"rest={rest.length}"]
       else if c == 'l' then [s!"last={ohex rest.getLast?}"]
       else [s!"hint=ok rest={rest.length}"]
+    else if c == 'N' then
+      -- `nth(1)`: skip one, yield the next
+      let r1 := Path.Segments.next p s
+      let r2 := Path.Segments.next p r1.2
+      ohex r2.1 :: segsGo p r2.2 cs
+    else if c == 'B' then
+      -- `nth_back(1)`
+      let r1 := Path.Segments.next_back p s
+      let r2 := Path.Segments.next_back p r1.2
+      ohex r2.1 :: segsGo p r2.2 cs
     else
       let r := if c == 'f' then Path.Segments.next p s else Path.Segments.next_back p s
       ohex r.1 :: segsGo p r.2 cs
